@@ -10,7 +10,7 @@ import tempfile
 import time
 
 from bounded.common import main
-from liquid import CachingChoiceLoader, CachingDictLoader, CachingFileSystemLoader, DictLoader, Environment, FileSystemLoader
+from liquid import CachingChoiceLoader, CachingDictLoader, CachingFileSystemLoader, ChoiceLoader, DictLoader, Environment, FileSystemLoader
 from liquid.exceptions import LiquidError
 
 SRC = {"a": "A{{ g }}", "b": "B{{ g }}"}
@@ -31,9 +31,57 @@ def get(env, name, ns, mode, gl):
         return ("other", type(e).__name__, str(e)[:60])
 
 
+class NSLoader(DictLoader):
+    """a child loader that serves per-namespace templates (namespace from kwargs or context)"""
+
+    def _ns(self, context, kwargs):
+        if "ns" in kwargs:
+            return kwargs["ns"]
+        if context is not None and "ns" in context.globals:
+            return context.globals["ns"]
+        return None
+
+    def get_source(self, env, template_name, *, context=None, **kwargs):
+        ns = self._ns(context, kwargs)
+        return super().get_source(env, f"{ns}/{template_name}" if ns else template_name)
+
+    async def get_source_async(self, env, template_name, *, context=None, **kwargs):
+        return self.get_source(env, template_name, context=context, **kwargs)
+
+
+def ns_scenarios(viol):
+    """namespace selected by keyword argument (no context) and by render context, interleaving
+    sync and async requests, against a fresh non-caching loader"""
+    n = 0
+    src = {"t": "PLAIN", "x/t": "X", "y/t": "Y", "main": "{% include 't' %}", "x/main": "{% include 't' %}", "y/main": "{% include 't' %}"}
+    for order in itertools.permutations([("x", "sync"), ("y", "sync"), ("x", "async"), ("y", "async"), (None, "sync")], 3):
+        for via in ("kwarg", "context"):
+            n += 1
+            cenv = Environment(loader=CachingChoiceLoader([NSLoader(dict(src))], namespace_key="ns"))
+            for ns, mode in order:
+                penv = Environment(loader=ChoiceLoader([NSLoader(dict(src))]))
+                def req(env):
+                    try:
+                        if via == "kwarg":
+                            kw = {} if ns is None else {"ns": ns}
+                            t = env.get_template("t", **kw) if mode == "sync" else asyncio.run(env.get_template_async("t", **kw))
+                            return t.render()
+                        g = {} if ns is None else {"ns": ns}
+                        t = env.get_template("main", globals=g, **({} if ns is None else {"ns": ns}))
+                        return t.render() if mode == "sync" else asyncio.run(t.render_async())
+                    except LiquidError as e:
+                        return f"raised {type(e).__name__}"
+                got, want = req(cenv), req(penv)
+                if got != want:
+                    viol.append({"id": "namespace-substituted", "witness": f"ns:{via}:{mode}", "source": f"CachingChoiceLoader(NSLoader) via {via}, order={order}", "got": f"{got!r} != {want!r}"})
+                    break
+    return n
+
+
 def run(tier, seed):
     viol = []
     cases = 0
+    cases += ns_scenarios(viol)
     n = 3 if tier == "thorough" else 2
     tmp = tempfile.mkdtemp(prefix="c23_")
     try:
